@@ -17,6 +17,7 @@ from fractions import Fraction as Fr
 
 from .. import common as C
 from .. import enc_expr as X
+from .. import forms as F
 from .. import gen_expr as GE
 
 PROP = "C13"
@@ -34,14 +35,23 @@ RULE = ("(a) systematic head (harness/gen_expr.py): every operator overload pair
         "and conditional leaves (plain, interventional, population-tagged; wild: repeated names, several worlds) through "
         "chain_expand (reorder on/off, ordering None / covering / not covering), fraction_expand, bayes_expand; fractions of "
         "joints (subset / equal / disjoint children, same or different populations) through contract and "
-        "recursive_contract. A case is non-trivial when both operands have depth >= 2 (operators) or the helper really "
+        "recursive_contract. (c) multi-world joints (gen_expr.struct_mw_*, appended): Sum.simplify on raw Sums over leaves whose "
+        "children share a base variable across worlds / value marks (every relation between ranges and duplicated / single "
+        "bases x {P, PP}); marginalize / normalize_marginalize / conditional of such leaves and sums; * and / between them; "
+        "judged on the widened class for Sum.simplify and the operators that never look inside a leaf, on generic positive "
+        "families plus one random functional SCM. (d) chain_expand with an explicit ordering that contains the (interventional / "
+        "value-marked) children themselves, so that it succeeds; ranges with duplicate bases ([A, A@X], [A, -A]) and "
+        "Intervention objects; every range / ordering argument in every legal FORM (bare Variable, bare str, str names, "
+        "tuple / set / frozenset / generator / iterator). A case is non-trivial when both operands have depth >= 2 (operators) or the helper really "
         "rewrites its input.")
 ASSUMPTIONS = [
+    "argument FORMS (harness/forms.py; chosen deterministically per case, stored in the case, tagged form_*): the `ranges` of marginalize / conditional / normalize_marginalize (VariableHint) as list / tuple / set / frozenset / generator / iterator, as a bare Variable or a bare str for a single range, with plain variables written as str names (all or every other one); chain_expand's ordering in every container form with Variable / str / mixed elements. The models take a list of variables: independence of the form is a runtime clause decided by correspondence + oracle",
     "every operator/helper theorem is about the model in Y0.Model.Dsl/Mutate; the tie to dsl.py/chain.py/contract.py is this run's correspondence check (sampling)",
     "theorems that cancel a division (fraction_simplify_den, chain_expand_den, contract_den, bayes/fraction_expand_den, sum_simplify_den) assume ProbFamily env and non-vanishing of the cancelled quantity (implied by Env.Positive on well-scoped leaves)",
     "conditional: the specification normalises over the FREE EVENT variables of the expression. After `fix:` a54a0f5 both overloads skip intervention subscripts; Expression.conditional still also sums over the ranges of inner Sums (what remains of F11): open finding conditional:extra=bound, keyed by verified mechanism. conditional_den states what the code computes, conditional_den_spec_partial the specification under the hypothesis that the collected variables are the free ones, conditional_complement_exact_iff proves that hypothesis EQUIVALENT to 'every name bound by an inner Sum is one of the ranges or occurs free elsewhere in the expression', conditional_den_spec_observational is the specification on exactly those inputs (subscripts anywhere), conditional_den_spec_sumfree / conditional_den_probability the Sum-free / leaf corollaries (the full statement is visible as -- OPEN: conditional_den_spec in Props/C13.lean). The remaining defect is pinned by the last assertion of tests/test_algorithm/test_id_star.py::TestIDStar::test_idc_star and test_original_id_star.py::TestOriginalIDStar::test_idc_star (figure 9a: expected Sum[D,W](f) / Sum[D,W,Y](Sum[D,W](f)), compared through canonicalize with structural ==; the corrected code returns .../Sum[Y](Sum[D,W](f))): a fix that computes the free variables fails exactly these two tests (385/387)",
     "the oracle gives no opinion on conditional / bayes_expand when a `+X` value or an Intervention OBJECT occurs in event position (constants of the specification that get_base() / Probability.conditional treat differently)",
-    "leaf-level helpers (chain/fraction/bayes expansion, contract, Sum.simplify) are proved for well-scoped leaves (pairwise distinct names, one world, intervened names disjoint from the leaf's variables); the oracle judges only those",
+    "leaf-level helpers (chain/fraction/bayes expansion, contract) are proved for well-scoped leaves (pairwise distinct names, one world, intervened names disjoint from the leaf's variables); the oracle judges only those",
+    "Sum.simplify (after `fix:` d517ad1), marginalize, normalize_marginalize, * and / are judged on the WIDENED class WellScopedW as well (multi-world joints, several children on one base variable): sum_simplify_den_mw needs the side conditions SumLeafOK only when the children have pairwise distinct base variables (any worlds), sum_simplify_shared_base: otherwise the sum is returned unchanged; mul_den / div_den / marginalize_den never had a scoping hypothesis. conditional / Fraction.simplify / expansions / contraction on multi-world leaves: correspondence only",
 ]
 LEANCHECK_MODULES = ["Y0.Model.Dsl", "Y0.Model.Mutate", "Y0.Props.C13"]
 EXHAUSTIVE = {"quick": False, "thorough": False}
@@ -214,12 +224,131 @@ def structured_cases(rng: random.Random, scale: int = 1):
     return out
 
 
+WIDE_OPS = ("sum_simplify", "marginalize", "normalize_marginalize", "mul", "div")
+
+
+def mw_cases(rng: random.Random, scale: int = 1):
+    """multi-world joints (gen_expr.struct_mw_*): Sum.simplify on raw Sums over leaves whose children share a base variable
+    across worlds / value marks, in every relation between ranges and duplicated / single bases x {P, PP}; marginalize /
+    normalize_marginalize / conditional of such leaves and sums with ranges chosen relative to the expression; * and /
+    between them"""
+    out = []
+
+    def add(c):
+        c["seed"] = rng.randrange(1 << 30)
+        out.append(c)
+
+    for mode in GE.MW_MODES:
+        for pop in (False, GE.POPS[0]):
+            for _ in range(25 * scale):
+                e, lab = GE.struct_mw_sum(rng, rng.choice([3, 4, 4, 5]), mode=mode, pop=pop, wrap="none")
+                add({"op": "sum_simplify", "a": e, "gen": lab})
+    for op in ("marginalize", "normalize_marginalize", "conditional"):
+        for _ in range(60 * scale):
+            nn = rng.choice([3, 4, 4, 5])
+            a, lab = GE.struct_mw_expr(rng, nn)
+            if rng.random() < 0.5:
+                a, lab = GE.mw_leaf(rng, nn)[0], "mwleaf"
+            r, mode = GE.struct_ranges(rng, a, nn)
+            add({"op": op, "a": a, "r": r, "gen": lab, "rmode": mode})
+    for op in ("mul", "div"):
+        for _ in range(50 * scale):
+            nn = rng.choice([3, 4, 4, 5])
+            a, _ = GE.struct_mw_expr(rng, nn)
+            b, _ = GE.struct_mw_expr(rng, nn) if rng.random() < 0.6 else GE.struct_expr(rng, nn)
+            add({"op": op, "a": a, "b": b, "gen": "mwpair"})
+    return out
+
+
+# argument FORMS (harness/forms.py): `ranges` of marginalize / conditional / normalize_marginalize is a VariableHint =
+# str | Variable | Iterable[str | Variable]; chain_expand's `ordering` an Iterable[str | Variable]
+RANGE_FORMS = ("list", "list", "tuple", "set", "frozenset", "generator", "iterator", "single", "str", "str_mixed")
+
+
+def _slots(case):
+    op = case["op"]
+    if op in ("marginalize", "conditional", "normalize_marginalize"):
+        return {"r": RANGE_FORMS}
+    if op == "chain_expand" and case.get("ordering") is not None:
+        return {"ordering": F.ORDERING_CONTAINERS, "ordering_elems": F.ORDERING_ELEMS}
+    return {}
+
+
+def _forms(case):
+    return F.forms_of(case, _slots(case))
+
+
+def _range_arg(vs, form):
+    """the ranges (a list of y0 Variables) in the recorded form: a bare Variable / a bare str for a single range, str names
+    for the plain variables of a collection, any collection type, a one-shot iterable"""
+    from y0.dsl import Variable
+
+    vs = list(vs)
+    is_plain = lambda v: type(v) is Variable and v.star is None  # noqa: E731
+    if form == "single":
+        return vs[0] if len(vs) == 1 else set(vs)
+    if form in ("str", "str_mixed"):
+        if len(vs) == 1 and is_plain(vs[0]) and form == "str":
+            return vs[0].name
+        return [v.name if is_plain(v) and (form == "str" or k % 2 == 0) else v for k, v in enumerate(vs)]
+    return F.container(vs, form)
+
+
+def chain_ordering_cases(rng: random.Random, n: int):
+    """chain_expand with an explicit ordering that CONTAINS the children of an interventional / value-marked leaf (membership
+    is by full variable equality, chain.py: an ordering of plain names can never succeed there): the leaf's own children
+    (and some parents, some extra plain names) shuffled, reorder on"""
+    out = []
+    while len(out) < n:
+        nn = rng.choice([3, 4, 4, 5])
+        cfg = GE.GenCfg(n_names=nn, well_scoped=True, p_star=rng.choice([0.0, 0.3, 0.6]), p_world=rng.choice([0.5, 0.9]),
+                        p_pop=0.2)
+        a = GE._gen_leaf(rng, cfg, frozenset())
+        ch, pa = GE._leaf_parts(a)
+        if not any(v[4] or v[2] != "n" for v in ch):
+            continue
+        o = [list(v) for v in ch] + [list(v) for v in pa if rng.random() < 0.5]
+        o += [V(k) for k in range(nn + 2) if rng.random() < 0.3 and all(int(v[1]) != k for v in o)]
+        if rng.random() < 0.12 and len(ch) > 1:      # an ordering that misses a child: the documented ValueError
+            o.remove(rng.choice([list(v) for v in ch]))
+        rng.shuffle(o)
+        out.append({"op": "chain_expand", "a": a, "reorder": True, "ordering": o, "gen": "chain_cf_ordering",
+                    "seed": rng.randrange(1 << 30)})
+    return out
+
+
+def range_shape_cases(rng: random.Random, n: int):
+    """ranges with duplicate BASES ([A, A @ X], [A, -A]) and Intervention OBJECTS (what the DSL's -A / +A build) handed to
+    marginalize / conditional / normalize_marginalize: all are reduced with get_base() and de-duplicated"""
+    out = []
+    while len(out) < n:
+        nn = rng.choice([3, 4, 4, 5])
+        a, lab = GE.struct_expr(rng, nn) if rng.random() < 0.7 else GE.struct_mw_expr(rng, nn)
+        ev = sorted(GE.event_names(a)) or [0]
+        r = []
+        for x in rng.sample(ev, rng.randint(1, min(3, len(ev)))):
+            forms = [V(x), ["v", x, rng.choice(["m", "p"]), "1", []], cf(x, [[rng.choice([m for m in range(nn + 1) if m != x]), "m"]]),
+                     ["v", x, rng.choice(["m", "p"]), "0", []]]
+            r += rng.sample(forms, rng.choice([1, 2, 2, 3]))
+        rng.shuffle(r)
+        out.append({"op": rng.choice(["marginalize", "conditional", "normalize_marginalize"]), "a": a, "r": r,
+                    "gen": "range_shapes:" + lab, "seed": rng.randrange(1 << 30)})
+    return out
+
+
 def cases(rng: random.Random, tier: str):
+    return [F.assign(c, _slots(c)) for c in _cases(rng, tier)]
+
+
+def _cases(rng: random.Random, tier: str):
     if os.environ.get("VERIF_EXPR_FAST_SEARCH") == "1":
         tier = "quick"      # tools/mutate_expr.py only: keeps the runner's extended search at the size of the quick stream
     out = _load_corpus()
     out += structured_cases(rng, 1 if tier == "quick" else 4)
     out += random_cases(rng, 6000 if tier == "quick" else 70000)
+    out += mw_cases(rng, 1 if tier == "quick" else 6)      # appended: the streams above are unchanged
+    out += chain_ordering_cases(rng, 250 if tier == "quick" else 2000)
+    out += range_shape_cases(rng, 200 if tier == "quick" else 1500)
     return out
 
 
@@ -294,20 +423,22 @@ def _call(case):
 
     op = case["op"]
     a = X.dec_expr(case["a"])
+    fm = _forms(case)
     if op == "mul":
         return a * X.dec_expr(case["b"])
     if op == "div":
         return a / X.dec_expr(case["b"])
     if op == "marginalize":
-        return a.marginalize([X.dec_var(v) for v in case["r"]])
+        return a.marginalize(_range_arg([X.dec_var(v) for v in case["r"]], fm["r"]))
     if op == "conditional":
-        return a.conditional([X.dec_var(v) for v in case["r"]])
+        return a.conditional(_range_arg([X.dec_var(v) for v in case["r"]], fm["r"]))
     if op == "normalize_marginalize":
-        return a.normalize_marginalize([X.dec_var(v) for v in case["r"]])
+        return a.normalize_marginalize(_range_arg([X.dec_var(v) for v in case["r"]], fm["r"]))
     if op in ("frac_simplify", "sum_simplify"):
         return a.simplify()
     if op == "chain_expand":
-        o = None if case["ordering"] is None else [X.dec_var(v) for v in case["ordering"]]
+        o = None if case["ordering"] is None else F.ordering_arg([X.dec_var(v) for v in case["ordering"]],
+                                                                 fm["ordering"], fm["ordering_elems"])
         return chain_expand(a, reorder=case["reorder"], ordering=o)
     if op == "fraction_expand":
         return fraction_expand(a)
@@ -375,8 +506,11 @@ def conditional_extra(case):
     return extra, sorted(kinds)
 
 
-def _judgeable(enc):
-    return GE.well_scoped(enc) and GE.zero_free_denominators(enc)
+def _judgeable(enc, wide=False):
+    """narrow: WellScoped (single-world leaves with distinct names); wide: WellScopedW (multi-world joints, children sharing
+    a base variable) - for the operators whose theorem holds there (WIDE_OPS: Sum.simplify after its repair, and the
+    operators that never look inside a leaf)"""
+    return (GE.well_scoped_mw(enc) if wide else GE.well_scoped(enc)) and GE.zero_free_denominators(enc)
 
 
 def _eval_spec(case, env, sigma, sstar, E):
@@ -427,9 +561,10 @@ def _single_child(enc):
 def _in_quantifier(case):
     op = case["op"]
     a = case["a"]
-    if not _judgeable(a):
+    wide = op in WIDE_OPS
+    if not _judgeable(a, wide):
         return False
-    if op in ("mul", "div") and not _judgeable(case["b"]):
+    if op in ("mul", "div") and not _judgeable(case["b"], wide):
         return False
     if op == "chain_expand":
         if case["reorder"] and case["ordering"] is not None:
@@ -472,8 +607,12 @@ def run_python(case):
         names = set(GE.all_names(case["a"])) | (set(GE.all_names(case["b"])) if "b" in case else set())
         names |= {int(v[1]) for v in case.get("r", [])}
         names = sorted(vname(n) for n in names)
-        for pk in rng.sample(range(E.N_SHARED), 2):
-            env = E.shared_env(pk)      # per-process pool of cached generic positive environments
+        is_wide = not (GE.well_scoped(case["a"]) and ("b" not in case or GE.well_scoped(case["b"])))
+        envs = [(pk, E.shared_env(pk)) for pk in rng.sample(range(E.N_SHARED), 2)]
+        if is_wide:      # multi-world joints: additionally a random functional SCM (shared noise across worlds)
+            fs = rng.randrange(1 << 30)
+            envs.append(("fscm", E.FscmEnv(fs, names, {n: rng.choice([2, 2, 3]) for n in names})))
+        for pk, env in envs:      # (shared: per-process pool of cached generic positive environments)
             seed = env.seed
             for _ in range(3):
                 sigma = E.random_valuation(rng, env, names)
@@ -491,7 +630,8 @@ def run_python(case):
             fail = f"chain_expand produced a factor that is not a single-child conditional: {res}"
     nontrivial = out[0] == "ok" and ((op in ("mul", "div") and GE.depth(case["a"]) >= 2 and GE.depth(case["b"]) >= 2)
                                      or (op not in ("mul", "div", "markov") and out[1] != X.to_str_tree(case["a"])))
-    tags = {"op": op, "outcome": out[0], "judged": inq, "gen": case.get("gen", "random").split(":")[0]}
+    tags = {"op": op, "outcome": out[0], "judged": inq, "gen": case.get("gen", "random").split(":")[0],
+            "judged_wide": bool(inq and not GE.well_scoped(case["a"])), "shared_base": GE.has_shared_base(case["a"])}
     if op == "frac_simplify":
         for f in GE.simplify_profile(case["a"]):
             tags["simplify_" + f] = True
@@ -501,6 +641,10 @@ def run_python(case):
                 tags["hit_" + f] = True
     if "rmode" in case:
         tags["rmode"] = case["rmode"]
+    tags.update(F.tags(_forms(case)))
+    if op == "chain_expand" and case.get("ordering") is not None:
+        tags["chain_explicit_ok"] = out[0] == "ok"
+        tags["chain_cf_children"] = any(v[4] or v[2] != "n" for v in GE._leaf_parts(case["a"])[0]) if isinstance(case["a"], list) and case["a"][0] in ("P", "PP") else False
     mech = None
     if fail and op == "conditional" and res is not None:
         extra, kinds = conditional_extra(case)
@@ -616,7 +760,8 @@ MANIFEST = {
              "chain_expand_den, chain_expand_markov, fraction_expand_den, bayes_expand_den, contract_den, "
              "recursive_contract_den - each stating that the model of the Python function denotes the mathematical operation "
              "applied to the denotations of its arguments for every distribution family satisfying the probability laws "
-             "(positivity where a division is cancelled). The models are tied to dsl.py / chain.py / contract.py on every "
+             "(positivity where a division is cancelled); sum_simplify_den_mw / sum_simplify_shared_base: Sum.simplify on "
+             "multi-world joints (several children on one base variable are left alone, after the repair d517ad1). The models are tied to dsl.py / chain.py / contract.py on every "
              "run by differential testing through all operator class pairs; the oracle evaluates both sides exactly."),
     "note": ("Trusted: Lean kernel; Y0/Spec/Sem.lean; the hand-written models tied to the code by sampling. Open findings "
              "(conditional over bound Sum ranges; the subscript part of F11 is fixed) are listed in known_findings.jsonl and print KNOWN-FINDING."),
